@@ -5,7 +5,7 @@
 From Coq Require Import ZArith QArith Qreals Reals List Bool Lra.
 From Interval Require Import Tactic.
 From Gen Require Import GenIAPWS GenTraced.
-From P Require Import Expr RunR SatInv.
+From P Require Import Expr RunR Formulas SatInv.
 Import ListNotations.
 Close Scope Q_scope.
 Open Scope R_scope.
